@@ -435,14 +435,14 @@ class CellConversion:
         # compute the base vectors of the lattice
         domain = cell.fillid
         if len(lat_base_vectors) != len(domain.bounds):
-            if len(lat_base_vectors) != domain.bounds.dims():
+            if len(lat_base_vectors) > len(domain.bounds):
                 msg = ('Problem of domain definition for lattice; expected '
-                       f'{len(lat_base_vectors)} non-trivial bounds, got '
-                       f'{domain.bounds.dims()}')
+                       f'{len(lat_base_vectors)} bounds, got '
+                       f'{len(domain.bounds)}')
                 raise LatticeError(msg)
-            n_missing_bounds = len(lat_base_vectors) - len(domain.bounds)
-            for i in range(n_missing_bounds):
-                range_ = domain.bounds[-1 - i]
+            # the first bounds refer to the lattice axes, in the order of the
+            # surfaces of the base cell; any additional bound must be trivial
+            for range_ in domain.bounds[len(lat_base_vectors):]:
                 if range_[0] != range_[1]:
                     msg = ('Problem of domain definition for lattice; '
                            f'expected {len(lat_base_vectors)} non-trivial '
